@@ -1,4 +1,5 @@
-(* C13 — correspondence.  case = ((cap ops) (obs ...)), obs = (out log len_after).
+(* C13 — correspondence.  case = ((cap ops [nocb [valkind]]) (obs ...)), obs = (out log len_after);
+   nocb = 1: the cache was built without a callback (nothing may be logged, all else equal).
    The model (recency list) is compared with the implementation (VMismatch), and the
    reference LRU of Spec.v — the property's executable form — is evaluated against the
    implementation's own outputs (VPropFail), together with the capacity bound. *)
@@ -90,12 +91,14 @@ Definition opcode (o : op) : N :=
 
 (* codes: 100+opcode = return value, 200+opcode = callback arguments, 300 = length,
    400 = capacity bound *)
-Fixpoint walk (c : cache) (s : spec) (ops : list op) (obs : list (out * list (Z * Z) * Z)) : verdict :=
+Fixpoint walk (nocb : bool) (c : cache) (s : spec) (ops : list op) (obs : list (out * list (Z * Z) * Z)) : verdict :=
   match ops, obs with
   | [], [] => VOk
   | o :: ops', (io, ilog, ilen) :: obs' =>
-      let '(c1, mo, mlog) := step c o in
-      let '(s1, so, slog) := sstep s o in
+      let '(c1, mo, mlog0) := step c o in
+      let '(s1, so, slog0) := sstep s o in
+      let mlog := if nocb then [] else mlog0 in
+      let slog := if nocb then [] else slog0 in
       let code := opcode o in
       let v :=
         vjoin (check_that (out_eqb so io) (VPropFail (100 + code)))
@@ -106,18 +109,22 @@ Fixpoint walk (c : cache) (s : spec) (ops : list op) (obs : list (out * list (Z 
        (vjoin (check_that (log_eqb o mlog ilog) (VMismatch (200 + code)))
               (check_that (ilen =? len c1) (VMismatch 300))))))) in
       match v with
-      | VOk => walk c1 s1 ops' obs'
+      | VOk => walk nocb c1 s1 ops' obs'
       | _ => v
       end
   | _, _ => VBad
   end.
 
+Definition check_with (nocb : bool) (cap0 : Z) (ops obs : list sx) : verdict :=
+  match map_opt dec_op ops, map_opt dec_obs obs with
+  | Some ops', Some obs' => walk nocb (new_cache cap0) (new_spec cap0) ops' obs'
+  | _, _ => VBad
+  end.
+
 Definition check (c : sx) : verdict :=
   match c with
-  | SList [SList [SInt cap0; SList ops]; SList obs] =>
-      match map_opt dec_op ops, map_opt dec_obs obs with
-      | Some ops', Some obs' => walk (new_cache cap0) (new_spec cap0) ops' obs'
-      | _, _ => VBad
-      end
+  | SList [SList [SInt cap0; SList ops]; SList obs] => check_with false cap0 ops obs
+  | SList [SList [SInt cap0; SList ops; SInt nocb]; SList obs]
+  | SList [SList [SInt cap0; SList ops; SInt nocb; SInt _]; SList obs] => check_with (negb (nocb =? 0)) cap0 ops obs
   | _ => VBad
   end.
